@@ -702,22 +702,32 @@ class QueueCollection(object):
         mergeable_prs = self._extract_pr_ids(self._queues)
 
         if not self.force_merge:
-            for merge_path in self.merge_paths:
-                versions = [branch.version_t for branch in merge_path]
-                stack = deepcopy(self._queues)
-                # remove versions not on this merge_path from consideration
-                for version in list(stack.keys()):
-                    # exclude hf version from this pop process
-                    if version not in versions and len(version) < 4:
-                        stack.pop(version)
+            queues = deepcopy(self._queues)
+            nb_prs = None
+            # A pull request rejected on one merge path is rejected on all
+            # of them: the other paths must then be looked at again without
+            # it, until no path shortens the list any further.
+            while nb_prs != len(mergeable_prs):
+                nb_prs = len(mergeable_prs)
+                for merge_path in self.merge_paths:
+                    versions = [branch.version_t for branch in merge_path]
+                    stack = deepcopy(queues)
+                    # remove versions not on this merge_path from
+                    # consideration
+                    for version in list(stack.keys()):
+                        # exclude hf version from this pop process
+                        if version not in versions and len(version) < 4:
+                            stack.pop(version)
 
-                # obtain list of mergeable prs on this merge_path
-                self._recursive_lookup(stack)
-                path_mergeable_prs = self._extract_pr_ids(stack)
+                    # obtain list of mergeable prs on this merge_path
+                    self._recursive_lookup(stack)
+                    path_mergeable_prs = self._extract_pr_ids(stack)
 
-                # smallest table is the common denominator
-                if len(path_mergeable_prs) < len(mergeable_prs):
-                    mergeable_prs = path_mergeable_prs
+                    # smallest table is the common denominator
+                    if len(path_mergeable_prs) < len(mergeable_prs):
+                        mergeable_prs = path_mergeable_prs
+
+                self._remove_unmergeable(mergeable_prs, queues)
 
         self._mergeable_prs = mergeable_prs
         mergeable_queues = deepcopy(self._queues)
